@@ -71,3 +71,89 @@ func specDir() string {
 	}
 	return "/verif/specs"
 }
+
+// cmdSweep: safety sweep over every module function (development aid and C09 backbone).
+func cmdSweep(args []string) int {
+	fs := flag.NewFlagSet("sweep", flag.ExitOnError)
+	timeout := fs.Int("timeout", 5, "seconds per obligation")
+	filter := fs.String("f", "", "function key prefix filter (comma separated)")
+	fs.Parse(args)
+	P, err := LoadProgram()
+	if err != nil {
+		fmt.Fprintln(os.Stderr, err)
+		return 2
+	}
+	P.analyzeGlobals()
+	C := LoadContracts(P, specDir())
+	for _, e := range C.Errors {
+		fmt.Println("CONTRACT ERROR:", e)
+	}
+	os.RemoveAll("/verif/out/sweep")
+	d := NewDischarger("/verif/out/sweep", *timeout, 16)
+	var keys []string
+	for _, k := range P.sortedFuncKeys() {
+		fn := P.Funcs[k]
+		if !isModuleFunc(fn) || len(fn.Blocks) == 0 || strings.Contains(k, "mock.") || strings.HasSuffix(k, ".init") {
+			continue
+		}
+		if *filter != "" {
+			ok := false
+			for _, f := range strings.Split(*filter, ",") {
+				if strings.HasPrefix(k, f) {
+					ok = true
+				}
+			}
+			if !ok {
+				continue
+			}
+		}
+		keys = append(keys, k)
+	}
+	type res struct {
+		key string
+		vc  *VC
+		pan any
+	}
+	out := make([]res, len(keys))
+	sem := make(chan struct{}, 8)
+	done := make(chan int, len(keys))
+	for i, k := range keys {
+		go func(i int, k string) {
+			sem <- struct{}{}
+			defer func() {
+				if r := recover(); r != nil {
+					out[i] = res{key: k, pan: r}
+				}
+				<-sem
+				done <- i
+			}()
+			vc := NewVC(P, C, P.Funcs[k], VCOpts{Safety: true, Canary: true})
+			vc.Generate()
+			d.Discharge(vc)
+			out[i] = res{key: k, vc: vc}
+		}(i, k)
+	}
+	for range keys {
+		<-done
+	}
+	nOb, nFail, nPanic := 0, 0, 0
+	for _, r := range out {
+		if r.pan != nil {
+			fmt.Printf("PANIC %s: %v\n", r.key, r.pan)
+			nPanic++
+			continue
+		}
+		for _, e := range r.vc.Errors {
+			fmt.Printf("ERROR %s: %s\n", r.key, e)
+		}
+		for _, ob := range r.vc.sc.Obligs() {
+			nOb++
+			if ob.Cover && ob.Result != "sat" || !ob.Cover && ob.Result != "unsat" {
+				nFail++
+				fmt.Printf("FAIL %-8s %s  %s\n", ob.Result, ob.Name, ob.Pos)
+			}
+		}
+	}
+	fmt.Printf("functions=%d obligations=%d failed=%d panics=%d\n", len(keys), nOb, nFail, nPanic)
+	return 0
+}
